@@ -153,6 +153,7 @@ def run(H, tier, rng):
             return
 
 
-Harness("C09", "curve families plus a small-units curve and a head/middle/tail curve x 4 detectors; L-method: Fit x Cost for the single pass and "
-        "Fit x Refinement x limit in {4,5,10} for the refinement (termination guarded at 20 s, result replayed with the criterion's minimiser on "
-        "each prefix); criteria computed from the dependency primitives (uts.gradient, uts.thresholding.isodata, lmethod.compute_error)", "n <= 60").main(run)
+if __name__ == "__main__":
+    Harness("C09", "curve families plus a small-units curve and a head/middle/tail curve x 4 detectors; L-method: Fit x Cost for the single pass and "
+            "Fit x Refinement x limit in {4,5,10} for the refinement (termination guarded at 20 s, result replayed with the criterion's minimiser on "
+            "each prefix); criteria computed from the dependency primitives (uts.gradient, uts.thresholding.isodata, lmethod.compute_error)", "n <= 60").main(run)
